@@ -286,7 +286,7 @@ def body_factory(ctx):
             M = 2 * np.pi * dt / P_d - M0
             d = np.abs(np.mod(M - ph + np.pi, 2 * np.pi) - np.pi)
             tol = 1e-7 + 2 * np.pi * 2e-11 / P_d + (1e-4 if "P" in f4 else 0.0)
-            if np.any(d > tol):
+            if not np.all(d <= tol):
                 j = int(np.argmax(d - tol))
                 raise Violation("%s: mean anomaly at the returned time is not the requested phase" % which,
                                 row=case["rows"][j], phase=ph, mean_anomaly_minus_phase_mod_2pi=float(d[j]))
@@ -297,7 +297,7 @@ def body_factory(ctx):
                 t0b = s.get_t0(t_ref=tr2)
             dt = np.atleast_1d((t0b - tr2).to_value(u.day))
             d = np.abs(np.mod(2 * np.pi * dt / P_d - M0 + np.pi, 2 * np.pi) - np.pi)
-            if np.any(d > 1e-7 + 2 * np.pi * 2e-11 / P_d + (1e-4 if "P" in f4 else 0.0)):
+            if not np.all(d <= 1e-7 + 2 * np.pi * 2e-11 / P_d + (1e-4 if "P" in f4 else 0.0)):
                 raise Violation("get_t0 called again with another reference epoch still answers for the first one",
                                 worst=float(d.max()))
         M0_new = np.mod(M0 + 1.0, 2 * np.pi)
@@ -306,7 +306,7 @@ def body_factory(ctx):
             t0c = s.get_t0(t_ref=tref_arg)
         dt = np.atleast_1d((t0c - tr).to_value(u.day))
         d = np.abs(np.mod(2 * np.pi * dt / P_d - M0_new + np.pi, 2 * np.pi) - np.pi)
-        if np.any(d > 1e-7 + 2 * np.pi * 2e-11 / P_d + (1e-4 if "P" in f4 else 0.0)):
+        if not np.all(d <= 1e-7 + 2 * np.pi * 2e-11 / P_d + (1e-4 if "P" in f4 else 0.0)):
             raise Violation("get_t0 after re-assigning M0 does not use the new values", worst=float(d.max()))
         with ctx.sut("restoring M0"):
             s["M0"] = (M0 * u.rad).to(units0["M0"])
@@ -326,7 +326,7 @@ def body_factory(ctx):
             with ctx.sut("get_orbit after wrap_K"):
                 orb_after = [w.get_orbit(i).radial_velocity(tt_orb).to_value(u.km / u.s) for i in range(min(n, 4))]
             for i in range(min(n, 4)):
-                if np.max(np.abs(orb_after[i] - orb_before[i])) > 1e-8 * (1 + abs(K0[i])):
+                if not (np.max(np.abs(orb_after[i] - orb_before[i])) <= 1e-8 * (1 + abs(K0[i]))):
                     raise Violation("get_orbit(%d) gives another RV curve after wrap_K on the same table" % i,
                                     row=case["rows"][i], before=orb_before[i], after=orb_after[i])
         if meta_of(w) != m0 or list(w.par_names) != allnames:
@@ -350,11 +350,11 @@ def body_factory(ctx):
         if neg.any():
             to_rad = float(og.conv(1.0, case["units"]["omega"], "rad"))
             d = np.abs(np.mod((om_a[neg] - om_b[neg]) * to_rad - np.pi + np.pi, 2 * np.pi) - np.pi)
-            if np.any(d > 1e-9):
+            if not np.all(d <= 1e-9):
                 raise Violation("wrap_K did not move omega by pi (mod 2 pi) where K was negative", delta=d[:8])
         for i in range(n):
             after = rv_curve(w, i, case["times"], tref_c)
-            if np.max(np.abs(after - curves[i])) > 1e-9 * (1 + abs(K0[i])):
+            if not (np.max(np.abs(after - curves[i])) <= 1e-9 * (1 + abs(K0[i]))):
                 raise Violation("wrap_K changed the RV curve of row %d" % i, row=case["rows"][i],
                                 max_diff=float(np.max(np.abs(after - curves[i]))))
         nondefault = any(case["units"][k_] != canon_unit(k_) for k_ in case["units"]) or case["t_ref"] is not None or case["poly"] > 1 or case["noff"] > 0
